@@ -10,7 +10,7 @@ G1 original names: ReadNames asks for num_vars+num_common_exprs and num_cons+num
 S1 the name file scanner and NameProvider::name never read outside the mapped file.
 """
 import re
-from ..cfg import reach_calls, norm_facts, xrender, expand_locals, Facts, kids, strip, walk, cv, render, call_args, call_object
+from ..cfg import loop_shape, reach_calls, norm_facts, xrender, expand_locals, Facts, kids, strip, walk, cv, render, call_args, call_object
 from ..cfg import short_loc as _short_loc
 from ..facts import export_many, AnalysisBroken
 
@@ -371,14 +371,20 @@ def run(rep, ctx):
     gen_ix = False
     for a_, c_, r_, o_ in nm_reached[:1]:
         gen_ix = any(n_["k"] == "BinaryOperator" and render(r_(n_)).replace(" ", "") == "io-num_c+1" for n_ in o_.walk())
-    okl = len(rowreq) == 1 and rowreq[0] == nctxt + "+num_objs()" and "io=num_c+o1" in lpt and "io<num_c+o2" in lpt and len(nmc) == 1 and name_arg == "io" and gen_ix
+    # the loop over the objectives: io from num_c+o1 up to num_c+o2 (for or while form, bounds possibly named)
+    lps_ = [loop_shape(so, n) for n in so.walk() if n["k"] in ("ForStmt", "WhileStmt")]
+    lps_ = [x for x in lps_ if x is not None]
+    lp_ok = False
+    if len(lps_) == 1 and lps_[0]["dir"] == "up" and lps_[0]["rel"] == "<" and lps_[0]["start"] not in (None, "continues"):
+        lp_ok = "num_c+o1" in (render(lps_[0]["start"]).replace(" ", ""), xrender(so, lps_[0]["start"]).replace(" ", "")) and xrender(so, lps_[0]["bound"]).replace(" ", "") == "num_c+o2" and lps_[0]["name"] == "io"
+    okl = len(rowreq) == 1 and rowreq[0] == nctxt + "+num_objs()" and lp_ok and len(nmc) == 1 and name_arg == "io" and gen_ix
     scn = calls(rn, name="get_names")
     sct = sorted(render(c).replace(" ", "").replace("GetModel().", "") for c in scn)
     okl = okl and any("get_names(num_cons(),num_algebraic_cons())" in t_ for t_ in sct)
     g1.check(okl, "row-layout", short_loc(so.loc), "objective names start after all num_cons() constraint names of the .row file (the count ReadNames requests), generated names count from 1",
              "objective names are taken from row index `%s` + k while the .row file holds %s names before them: with logical constraints an objective gets the name of another item" % (nctxt, rowreq[0].replace("+num_objs()", "") if rowreq else "?"))
     own_ = [so] + [o_ for a_, c_, r_, o_ in nm_reached if o_ is not so]
-    fb = [n for g_ in own_ for n in g_.walk() if n["k"] == "IfStmt" and "number_read()" in render(kids(n)[0])]
+    fb = [n for g_ in own_ for n in g_.walk() if n["k"] == "IfStmt" and "number_read()" in xrender(g_, kids(n)[0], True)]
     lits_ = " ".join(x.get("v", "") for g_ in own_ for x in g_.walk() if x["k"] == "StringLiteral")
     g1.check(len(fb) == 1 and "_sobj[" in lits_, "objective-generic-fallback", short_loc(so.loc), "objective names missing from the .row file are generated")
 
